@@ -65,6 +65,24 @@ def check_functions(chk, prog, fnames, kinds, rule_prefix=""):
     return doms
 
 
+def atomic_rule(chk, prog, fnames, doms=None, rule="ATOMIC"):
+    """a failing return of the room check / growth routine leaves buffer and buffer_len as they were"""
+    kinds = dict(ERR.OS_FAIL)
+    kinds.update(ERR.internal_summaries(prog))
+    n = 0
+    for fn in fnames:
+        dom = (doms or {}).get(fn) or ERR.analyse_function(prog, fn, kinds, lambda *a: None)
+        for r, s in dom.rets:
+            isf = ERR.return_is_failure(prog, dom, r) if r.get("kind") == "ReturnStmt" else None
+            if isf:
+                n += 1
+                w = s.get("__written", frozenset()) & {"buffer", "buffer_len"}
+                chk.require(not w, rule, "%s/%s@%s" % (rule, fn, loc_str(r)), loc_str(r),
+                            "a failing return of %s leaves buffer and buffer_len as they were" % fn,
+                            "fields written on this path: %s" % sorted(w))
+    return n
+
+
 def run(chk, prog, tier):
     kinds = dict(ERR.OS_FAIL)
     kinds.update(ERR.internal_summaries(prog))
@@ -87,15 +105,7 @@ def run(chk, prog, tier):
     # growth is atomic: a failing growth leaves buffer and buffer_len untouched
     growers = sorted(fn for fn, cn, _ in inv if cn == "mremap")
     chk.floor("growth routines", len(set(growers)), 1)
-    for fn in sorted(set(growers)):
-        dom = doms[fn]
-        for n, s in dom.rets:
-            isf = ERR.return_is_failure(prog, dom, n) if n.get("kind") == "ReturnStmt" else None
-            if isf:
-                w = s.get("__written", frozenset()) & {"buffer", "buffer_len"}
-                chk.require(not w, "ATOMIC", "ATOMIC/%s@%s" % (fn, loc_str(n)), loc_str(n),
-                            "a failing return of the growth routine leaves buffer and buffer_len as they were",
-                            "fields written on this path: %s" % sorted(w))
+    atomic_rule(chk, prog, sorted(set(growers)), doms)
     chk.trusted_base = ["clang 14 front end", "the checker (valib/flow.py, valib/err.py)",
                         "failure conventions of the libc calls as listed in valib/err.py:OS_FAIL (POSIX)"]
     chk.explanation = ("Every call site of an OS/libc resource function in the library is enumerated from resolved callees; "
